@@ -54,6 +54,11 @@ func (w *World) canon(v ssa.Value, d int) string {
 	}
 	switch x := v.(type) {
 	case *ssa.Parameter:
+		for k := len(w.inlineEnv) - 1; k >= 0; k-- {
+			if sv, ok := w.inlineEnv[k][x]; ok {
+				return sv
+			}
+		}
 		i, ok := paramIndex(x)
 		if !ok {
 			return "p?"
@@ -197,7 +202,56 @@ func (w *World) canon(v ssa.Value, d int) string {
 	return fmt.Sprintf("?%T", v)
 }
 
+// CanonI renders v with calls of simple pure module helpers replaced by the
+// expression they return (so that extracting `fee := gasPrice x gas` into a
+// helper does not change what a rule sees).
+func (w *World) CanonI(v ssa.Value) string {
+	w.inlineHelpers = true
+	defer func() { w.inlineHelpers = false }()
+	return w.canon(v, 0)
+}
+
+func (w *World) canonCallI(c *ssa.CallCommon) string {
+	w.inlineHelpers = true
+	defer func() { w.inlineHelpers = false }()
+	return w.canonCall(c, 0)
+}
+
+// simpleHelper: a module function with a single block, no effects, returning one expression.
+func (w *World) simpleHelper(fn *ssa.Function) ssa.Value {
+	if fn == nil || !w.InModule(fn) || len(fn.Blocks) != 1 || fn.Signature.Results().Len() != 1 || len(fn.Blocks[0].Instrs) > 14 {
+		return nil
+	}
+	var ret *ssa.Return
+	for _, in := range fn.Blocks[0].Instrs {
+		switch x := in.(type) {
+		case *ssa.Store, *ssa.MapUpdate, *ssa.Go, *ssa.Defer, *ssa.Panic, *ssa.Send, *ssa.RunDefers:
+			return nil
+		case *ssa.Return:
+			ret = x
+		}
+	}
+	if ret == nil || len(ret.Results) != 1 {
+		return nil
+	}
+	return ret.Results[0]
+}
+
 func (w *World) canonCall(c *ssa.CallCommon, d int) string {
+	if w.inlineHelpers && len(w.inlineEnv) < 3 {
+		if fn := c.StaticCallee(); fn != nil {
+			if res := w.simpleHelper(fn); res != nil && len(fn.Params) == len(c.Args) {
+				env := map[*ssa.Parameter]string{}
+				for i, p := range fn.Params {
+					env[p] = w.canon(c.Args[i], d+1)
+				}
+				w.inlineEnv = append(w.inlineEnv, env)
+				out := w.canon(res, d+1)
+				w.inlineEnv = w.inlineEnv[:len(w.inlineEnv)-1]
+				return out
+			}
+		}
+	}
 	var args []string
 	if c.IsInvoke() {
 		for _, a := range c.Args {
